@@ -1,7 +1,7 @@
 (* C13 — property theorems.  Statements only: each is closed by [exact] of a lemma proved in
    coq/C13/Interrupt.v about the DynCore model (coq/C12/Dyn.v). *)
 From Coq Require Import List Arith Bool QArith.
-From Scenic Require Import C12.Dyn C12.DynProofs C13.Interrupt.
+From Scenic Require Import C12.Dyn C12.DynProofs C13.Interrupt C13.Compiler C13.CompilerProofs.
 Import ListNotations.
 Local Open Scope nat_scope.
 
@@ -171,7 +171,7 @@ Definition gprog (s : stmt) : program :=
   {| p_behaviors := [ {| b_pre := []; b_inv := [CTab 0]; b_body := [s] |};
                       {| b_pre := []; b_inv := []; b_body := [STake 5; STake 5] |} ];
      p_monitors := []; p_scenarios := [ {| s_pre := []; s_inv := []; s_limit := None; s_termwhen := [];
-                                           s_monitors := []; s_reqs := []; s_compose := None |} ];
+                                           s_monitors := []; s_reqs := []; s_compose := None; s_records := []; s_termsim := [] |} ];
      p_objects := [Some 0]; p_rec_init := []; p_records := []; p_rec_final := []; p_termsim := []; p_reqs := [] |}.
 Example C13_guards_not_while_sub_runs_refuted :
   let w := {| w_tab := [[true; false; true; true; true; true]] |} in
@@ -222,3 +222,42 @@ Proof.
   exists [STake 2; STake 3], [(CTab 0, [SBreak]); (CConst false, [STry [STake 5] [(CConst false, [STake 6])]])].
   vm_compute. repeat split; reflexivity.
 Qed.
+
+(* ---- the compiler's context flags as the state machine they are (coq/C13/Compiler.v: inLoop / inInterruptBlock
+   saved and restored by visit_While / visit_TryInterrupt, usedBreak / usedContinue reset and set).
+   Flags after a statement equal flags before it: whatever statement is visited, in whatever state, nested to any
+   depth, inLoop and inInterruptBlock are afterwards what they were before ... *)
+Theorem C13_compiler_context_restored : forall s st,
+  c_loop (fst (visit true s st)) = c_loop st /\ c_blk (fst (visit true s st)) = c_blk st.
+Proof. exact context_restored. Qed.
+(* ... therefore every break / continue is classified LEXICALLY (turned into the block's BREAK / CONTINUE return iff it
+   is inside an interrupt block and outside every loop of that block), also when it FOLLOWS a nested try-interrupt
+   statement in the same loop body -- the reading DynCore's run-time semantics uses (unwind_loop over the frames of the
+   current block function) ... *)
+Theorem C13_compiler_classifies_lexically : forall s st, snd (visit true s st) = lex s (c_loop st) (c_blk st).
+Proof. exact visit_is_lexical. Qed.
+Theorem C13_compiler_block_lexical : forall ss st,
+  snd (visit_block true ss st) = flat_map (fun x => lex x (c_loop st) (c_blk st)) ss /\
+  c_loop (fst (visit_block true ss st)) = c_loop st /\ c_blk (fst (visit_block true ss st)) = c_blk st.
+Proof. exact block_is_lexical. Qed.
+(* ... and the usedBreak / usedContinue the state machine ends with are the model's fl_stmt / try_flags *)
+Theorem C13_compiler_flags_are_model_flags : forall s st, c_blk st = true ->
+  (c_ub (fst (visit true s st)), c_uc (fst (visit true s st))) = fl_stmt s (c_loop st) (c_ub st, c_uc st).
+Proof. exact visit_flags_are_fl_stmt. Qed.
+Theorem C13_compiler_try_flags : forall body hs st,
+  (c_ub (fst (visit true (STry body hs) st)), c_uc (fst (visit true (STry body hs) st))) = try_flags body hs.
+Proof. exact try_statement_flags. Qed.
+(* the variant that forgets to restore inLoop misclassifies a `break` following a nested statement inside a loop of an
+   outer block (the directed family `nestctl` of harness/c13.py replays this shape on the real compiler) *)
+Theorem C13_inloop_not_restored_refuted :
+  snd (visit false wit_loop_after_nested cst0) <> lex wit_loop_after_nested false false /\
+  snd (visit true wit_loop_after_nested cst0) = lex wit_loop_after_nested false false /\
+  snd (visit false wit_loop_after_nested cst0) = [true] /\ lex wit_loop_after_nested false false = [false].
+Proof. exact inloop_not_restored_refuted. Qed.
+Example C13_compiler_classification_example :    (* non-vacuity: both classes occur *)
+  snd (visit true (STry [SWhile (CTab 0) [STake 1; SBreak]; SContinue] [(CTab 1, [SBreak])]) cst0) = [false; true; true].
+Proof. vm_compute. reflexivity. Qed.
+Print Assumptions C13_compiler_context_restored.
+Print Assumptions C13_compiler_classifies_lexically.
+Print Assumptions C13_compiler_flags_are_model_flags.
+Print Assumptions C13_inloop_not_restored_refuted.
